@@ -140,6 +140,14 @@ func (bkt *Bucket) updateHtreeFromHint(chunkID int, path string) (maxoffset uint
 		meta.ValueHash = item.Vhash
 		meta.Ver = item.Ver
 		pos.Offset = item.Pos.Offset
+		// A hint file is replayed in key order, not in write order. Keys that
+		// share a key hash share one tree entry, which at run time belongs to the
+		// latest write: an item never replaces or removes an entry that points
+		// behind it (set by a later write of another key with the same hash).
+		if _, cur, found := tree.get(ki); found && (cur.ChunkID > chunkID ||
+			(cur.ChunkID == chunkID && cur.Offset > item.Pos.Offset)) {
+			continue
+		}
 		if item.Ver > 0 {
 			pos.ChunkID = chunkID
 			tree.set(ki, &meta, pos)
